@@ -15,7 +15,7 @@ ANCHORED = ["selection_rate", "mean_prediction", "true_positive_rate", "_constru
 RULE = ("random datasets n<=25, 1..4 groups (skewed: single-row groups frequent), integer weights 1..5; for each the "
         "weighted call is compared with (a) the same rows repeated weight-many times unweighted, (b) repeated rows with "
         "all-ones weights vs no weights, (c) weights scaled by 0.5, 3, 1e-3, 1e6, 1e-10, 1e-15, 1e12 - for the 4 rates (all label encodings "
-        "of C14), selection_rate, mean_prediction, a dict MetricFrame with per-metric sample_params (by_group, overall, "
+        "of C14; integer weights also in uint8/int8/int16/uint16/float32 arrays or Series, with up to 320 rows), selection_rate, mean_prediction, a dict MetricFrame with per-metric sample_params (by_group, overall, "
         "difference, ratio; plus a frame holding the same functions under several keys with different / no weights per key) and the 6 named fairness metrics; result shape (scalar vs array) compared too. "
         "distinct = distinct (n, sorted group sizes, weight multiset, encoding); non-trivial = some weight > 1.")
 ASSUMPTIONS = ["weights are positive integers (multiplicity) or positive real multiples of them",
@@ -28,16 +28,18 @@ def cases(tier, seed):
     return [("direct", i) for i in range(k)] + [("frame", i) for i in range(k // 2)] + [("fairness", i) for i in range(k // 2)]
 
 
-def _same(a, b):
+def _same(a, b, rtol=1e-11):
     if np.ndim(a) != np.ndim(b) or np.shape(a) != np.shape(b):
         return False
     if np.ndim(a) == 0:
-        return close(a, b, 1e-11, 1e-14)
-    return bool(np.allclose(np.asarray(a, float), np.asarray(b, float), rtol=1e-11, atol=1e-14, equal_nan=True))
+        return close(a, b, rtol, 1e-14)
+    return bool(np.allclose(np.asarray(a, float), np.asarray(b, float), rtol=rtol, atol=1e-14, equal_nan=True))
 
 
 def _data(rng):
     n = int(rng.integers(1, 26))
+    if rng.random() < 0.07:
+        n = int(rng.integers(60, 320))  # enough rows for weight totals beyond the range of 8-bit weight dtypes
     k = int(rng.integers(1, 5))
     g = gen.skewed_labels(rng, n, k)
     y = rng.integers(0, 2, size=n)
@@ -75,7 +77,21 @@ def run_case(cls, key, seed, ctx):
                (M.selection_rate, kw)]
         if not isinstance(pos, str):
             fns.append((M.mean_prediction, {}))
+        # integer multiplicities stored in a narrow dtype (uint8 / int8 / int16 / float32 counts columns): same meaning
+        wdt = gen.pick(rng, [None, None, "int64", "uint8", "int8", "int16", "float32", "uint16"])
         for f, fkw in fns:
+            if wdt is not None:
+                wn = np.asarray(w).astype(wdt)
+                wn = wn if rng.random() < 0.5 else __import__("pandas").Series(wn, index=gen.hostile_index(n, "shuffled", rng))
+                a_n = f(yy, pp, sample_weight=wn, **fkw)
+                ones_n = np.ones(len(rep)).astype(wdt)
+                c_n = f(yr, pr, sample_weight=ones_n, **fkw)
+                b_n = f(yr, pr, **fkw)
+                ctx.ev("metamorphic_pairs_compared", 2)
+                rt = 1e-6 if wdt == "float32" else 1e-11  # single-precision weights may be processed in single precision
+                ctx.check(_same(a_n, b_n, rt), "weight_k_differs_from_k_copies:" + f.__name__, enc=name, weight_dtype=wdt, rows=n, y_true=yy[:40], y_pred=pp[:40],
+                          weights=w.tolist()[:40], weighted=repr(a_n), repeated=repr(b_n))
+                ctx.check(_same(b_n, c_n, rt), "none_differs_from_all_ones:" + f.__name__, enc=name, weight_dtype=wdt, rows=len(rep), none=repr(b_n), ones=repr(c_n))
             a = f(yy, pp, sample_weight=wv(w), **fkw)
             b = f(yr, pr, **fkw)
             c = f(yr, pr, sample_weight=wv(np.ones(len(rep))), **fkw)
@@ -106,6 +122,16 @@ def run_case(cls, key, seed, ctx):
 
         A = frame(yl, pl_, gg, wv(w))
         B = frame(yr, pr, gr, None)
+        # the caller's nested sample_params dict is reused for a second frame (comparing models): still weight k = k copies
+        sp_shared = {k: {"sample_weight": wv(w)} for k in metrics}
+        M.MetricFrame(metrics=metrics, y_true=yl, y_pred=[1 - v for v in pl_], sensitive_features=gg, sample_params=sp_shared)
+        A_second = M.MetricFrame(metrics=metrics, y_true=yl, y_pred=pl_, sensitive_features=gg, sample_params=sp_shared)
+        for m in metrics:
+            ctx.ev("frame_cells_compared", len(A.by_group.index) + 1)
+            bad = [gi for gi in A.by_group.index if not _same(A_second.by_group.loc[gi, m], B.by_group.loc[gi, m])]
+            ctx.check(not bad and _same(A_second.overall[m], B.overall[m]), "weight_k_differs_from_k_copies:second_MetricFrame_from_the_same_sample_params_object:" + m,
+                      groups_differing=[repr(b) for b in bad], overall=repr(A_second.overall[m]), expected_overall=repr(B.overall[m]),
+                      y_true=yl, y_pred=pl_, groups=gg, weights=w.tolist())
         C = frame(yr, pr, gr, wv(np.ones(len(rep))))
         D = frame(yl, pl_, gg, wv(w * gen.pick(rng, SCALES)))
         for label, X, Y in (("weight_k_differs_from_k_copies", A, B), ("none_differs_from_all_ones", B, C),
